@@ -60,3 +60,28 @@ void c12_round_bad(const float *src, float inv_delta, int *dst, int n) {
   for (int i = 0; i < n; ++i) dst[i] = static_cast<int>(std::lrintf(src[i] * inv_delta));
 }
 }  // namespace verif_control
+
+// ---- FRESHBUF control (C12): scratch buffer of a partial writer hoisted out of the loop -----------------
+#include <vector>
+namespace verif_control {
+bool c12_partial_fill(int id, int n, float *out);
+void c12_use(const float *);
+void c12_fresh_bad(int num_atts, int width) {
+  std::vector<float> origin(width, 0.f);
+  for (int i = 0; i < num_atts; ++i) {
+    c12_partial_fill(i, width, origin.data());
+    c12_use(origin.data());
+  }
+}
+}  // namespace verif_control
+
+// ---- KEYTYPE control (C20/C12): an attribute *type* used as key of options keyed by attribute *id* ------
+#include "draco/compression/config/encoder_options.h"
+namespace verif_control {
+int c20_keytype_bad(const draco::EncoderOptions &options) {
+  return options.GetAttributeInt(draco::GeometryAttribute::GENERIC, "quantization_bits", -1);
+}
+int c20_keytype_bad2(const draco::EncoderOptions &options, draco::GeometryAttribute::Type t) {
+  return options.GetAttributeInt(t, "quantization_bits", -1);
+}
+}  // namespace verif_control
